@@ -1007,3 +1007,155 @@ Lemma e2e_periodic_from_start script n s :
   run_store [] (e2e_actions watch_step false None script n s) =
   map (fun k => store_pick (last_good [] (firstn (S k) script)) n s) (seq 0 (length script)).
 Proof. now apply e2e_periodic. Qed.
+
+(* ================= an unusable entry makes the whole snapshot unusable ================= *)
+(* the key file that goes with a certificate file: determined by the certificate file's name
+   alone, whichever of the two (or the combined file) the loop came across first *)
+Definition key_file_of (cf : str) : str :=
+  if has_suffix cf s_cert then replace_suffix cf s_cert s_key else cf.
+Lemma replace_suffix_app r old new : replace_suffix (r ++ old) old new = r ++ new.
+Proof.
+  unfold replace_suffix. rewrite app_length.
+  replace (length r + length old - length old)%nat with (length r + 0)%nat by lia.
+  rewrite firstn_app_2. cbn [firstn]. now rewrite app_nil_r.
+Qed.
+Lemma classify_key name cf kf : classify name = Some (cf, kf) -> kf = key_file_of cf.
+Proof.
+  unfold classify, key_file_of.
+  destruct (has_suffix name s_cert) eqn:E1.
+  - intros H. inversion H; subst. now rewrite E1.
+  - destruct (has_suffix name s_key) eqn:E2.
+    + intros H. inversion H; subst. apply has_suffix_spec in E2 as [r ->].
+      rewrite replace_suffix_app.
+      assert (S : has_suffix (r ++ s_cert) s_cert = true) by (apply has_suffix_spec; now exists r).
+      rewrite S. now rewrite replace_suffix_app.
+    + destruct (has_suffix name s_pem); [|discriminate].
+      intros H. inversion H; subst. now rewrite E1.
+Qed.
+(* the converse of [load_files_error]: one certificate, key or combined file of the snapshot
+   whose pair cannot be made (missing, empty, unparsable, mismatched) fails the whole load -
+   it is never loaded as the smaller set of the pairs that can be made *)
+Lemma unusable_entry_fails_load m name cf kf :
+  In name (map fst m) -> classify name = Some (cf, kf) -> key_pair m cf kf = None ->
+  snd (load_files m) = true.
+Proof.
+  intros Hn Hc Hk. destruct (snd (load_files m)) eqn:E; [reflexivity|]. exfalso.
+  destruct (load_files_complete m name cf kf E Hn Hc) as [c Hin].
+  apply load_files_sound in Hin as (name' & kf' & _ & Hc' & Hk').
+  apply classify_key in Hc. apply classify_key in Hc'. subst kf kf'. congruence.
+Qed.
+Lemma load_error_unusable m : snd (load_files m) = true -> usable (Loaded (Some m)) = None.
+Proof.
+  unfold usable, built, load_certificates. destruct (load_files m) as [x bad]. cbn [snd].
+  intros ->. now destruct (map snd x).
+Qed.
+(* a block without a certificate (an empty or whitespace-only file, a file being rewritten)
+   where a certificate is expected, or without a private key where a key is expected *)
+Lemma no_cert_no_pair m cf kf f : blocks_find m cf = Some f -> f_cert f = None -> key_pair m cf kf = None.
+Proof.
+  intros Hf Hc. unfold key_pair. rewrite Hf. destruct (blocks_find m kf); [|reflexivity]. now rewrite Hc.
+Qed.
+Lemma no_key_no_pair m cf kf f : blocks_find m kf = Some f -> f_key f = None -> key_pair m cf kf = None.
+Proof.
+  intros Hf Hk. unfold key_pair. rewrite Hf. destruct (blocks_find m cf) as [c|]; [|reflexivity].
+  rewrite Hk. now destruct (f_cert c) as [[? ?]|].
+Qed.
+Lemma unusable_entry_keeps_set cur script m name cf kf :
+  In name (map fst m) -> classify name = Some (cf, kf) -> key_pair m cf kf = None ->
+  last_good cur (script ++ [Loaded (Some m)]) = last_good cur script.
+Proof.
+  intros Hn Hc Hk. apply unusable_keeps_set, load_error_unusable.
+  now apply (unusable_entry_fails_load m name cf kf).
+Qed.
+(* ... and the handshake after such a snapshot is answered as the one before it was *)
+Lemma unusable_entry_handshake script m name cf kf n s :
+  In name (map fst m) -> classify name = Some (cf, kf) -> key_pair m cf kf = None ->
+  nth (length script) (run_store [] (e2e_actions watch_step false None (script ++ [Loaded (Some m)]) n s)) PNone
+  = store_pick (last_good [] script) n s.
+Proof.
+  intros Hn Hc Hk. rewrite e2e_periodic_from_start.
+  assert (L : (length script < length (script ++ [Loaded (Some m)]))%nat) by (rewrite app_length; cbn; lia).
+  rewrite (nth_indep _ PNone (store_pick (last_good [] (firstn (S 0) (script ++ [Loaded (Some m)]))) n s))
+    by (now rewrite map_length, seq_length).
+  rewrite (map_nth (fun k => store_pick (last_good [] (firstn (S k) (script ++ [Loaded (Some m)]))) n s)).
+  rewrite seq_nth by exact L. cbn [Nat.add].
+  rewrite firstn_all2 by (rewrite app_length; cbn; lia).
+  now rewrite (unusable_entry_keeps_set [] script m name cf kf).
+Qed.
+Definition good_b_cert : str * pfile := (bs "b-cert.pem", pf 3 (Some (7, [bs "b.example"])) None).
+Definition good_ab : blocks := good_a ++ [good_b_cert; (bs "b-key.pem", pf 2 None (Some 7))].
+(* b-key.pem is there but empty (id 0: other bytes than before, no key in them) *)
+Definition ab_key_emptied : blocks := good_a ++ [good_b_cert; (bs "b-key.pem", pf 0 None None)].
+Example unusable_entry_example :
+  In (bs "b-key.pem") (map fst ab_key_emptied) /\
+  classify (bs "b-key.pem") = Some (bs "b-cert.pem", bs "b-key.pem") /\
+  key_pair ab_key_emptied (bs "b-cert.pem") (bs "b-key.pem") = None /\
+  load_certificates ab_key_emptied = ([[bs "a.example"]], true) /\
+  run_store [] (e2e_actions watch_step false None
+                  [Loaded (Some good_ab); Loaded (Some ab_key_emptied); Loaded (Some ab_key_emptied); Loaded (Some good_ab)]
+                  (bs "b.example") true)
+  = [PCert 1; PCert 1; PCert 1; PCert 1].
+Proof. vm_compute. repeat split. right; right; right; now left. Qed.
+
+(* ================= the whole certificate value: leaf, chain, staple ================= *)
+Lemma present_on_pick set n s : pick_of (present_on set n s) = store_pick (names_of set) n s.
+Proof.
+  unfold present_on. destruct (store_pick (names_of set) n s) as [i| |]; try reflexivity.
+  now destruct (nth_error set i).
+Qed.
+(* the name-level store of the theorems above is the projection of this one *)
+Lemma run_mstore_projects : forall sched cur,
+  map pick_of (run_mstore cur sched) = run_store (names_of cur) (map strip_material sched).
+Proof.
+  induction sched as [|a r IH]; intros cur; [reflexivity|].
+  destruct a as [c|n s]; cbn [run_mstore map strip_material run_store]; [apply IH|].
+  now rewrite present_on_pick, IH.
+Qed.
+(* what is presented is an element of the set, complete: the one at the selected position *)
+Lemma present_on_member set n s i c :
+  present_on set n s = RCert i c -> nth_error set i = Some c /\ store_pick (names_of set) n s = PCert i.
+Proof.
+  unfold present_on. destruct (store_pick (names_of set) n s) as [j| |]; try discriminate.
+  destruct (nth_error set j) as [d|] eqn:E; [|discriminate]. intros H. inversion H; subst. auto.
+Qed.
+Lemma present_on_inside set n s i : present_on set n s <> ROutside i.
+Proof.
+  unfold present_on. destruct (store_pick (names_of set) n s) as [j| |] eqn:P; try discriminate.
+  apply pick_in_set in P. unfold names_of in P. rewrite map_length in P.
+  destruct (nth_error set j) eqn:E; [discriminate|]. apply nth_error_None in E. lia.
+Qed.
+Definition is_handshake (a : maction) : Prop := match a with MHandshake _ _ => True | MPublish _ => False end.
+Lemma run_mstore_app : forall a cur b,
+  Forall is_handshake a -> run_mstore cur (a ++ b) = run_mstore cur a ++ run_mstore cur b.
+Proof.
+  induction a as [|x a IH]; intros cur b H; [reflexivity|].
+  inversion H as [|? ? Hx Ha]; subst. destruct x as [c|n s]; [contradiction|].
+  cbn [app run_mstore]. now rewrite IH.
+Qed.
+(* every handshake is answered from the set of the last publication before it, whatever was
+   in the store before and whatever that set has in common with it: the answers before the
+   publication are a function of the schedule before it, those after it of the new set *)
+Lemma run_mstore_publish : forall pre cur set rest,
+  run_mstore cur (pre ++ MPublish set :: rest) = run_mstore cur pre ++ run_mstore set rest.
+Proof.
+  induction pre as [|x pre IH]; intros cur set rest; [reflexivity|].
+  destruct x as [c|n s]; cbn [app run_mstore]; [apply IH|]. now rewrite IH.
+Qed.
+Lemma handshake_after_publication pre cur set mid n s post :
+  Forall is_handshake mid ->
+  run_mstore cur (pre ++ MPublish set :: mid ++ MHandshake n s :: post) =
+  run_mstore cur pre ++ run_mstore set mid ++ present_on set n s :: run_mstore set post.
+Proof. intros H. rewrite run_mstore_publish. f_equal. now rewrite run_mstore_app. Qed.
+(* the same leaf republished with another chain: the next handshake is given the new chain *)
+Definition shop_old : fcert := {| fc_names := [bs "shop.test"]; fc_leaf := 1; fc_rest := 10 |}.
+Definition shop_new : fcert := {| fc_names := [bs "shop.test"]; fc_leaf := 1; fc_rest := 11 |}.
+Definition api_cert : fcert := {| fc_names := [bs "api.test"]; fc_leaf := 2; fc_rest := 10 |}.
+Example republished_chain_example :
+  run_mstore [] [MHandshake (bs "shop.test") true;
+                 MPublish [api_cert; shop_old]; MHandshake (bs "shop.test") true;
+                 MPublish [api_cert; shop_new]; MHandshake (bs "Shop.test.") true; MHandshake (bs "x.test") true;
+                 MHandshake (bs "x.test") false]
+  = [RErrNoCerts; RCert 1 shop_old; RCert 1 shop_new; RNone; RCert 0 api_cert]
+  /\ Forall is_handshake [MHandshake (bs "x.test") true]
+  /\ fc_leaf shop_old = fc_leaf shop_new /\ fc_rest shop_old <> fc_rest shop_new.
+Proof. split; [vm_compute; reflexivity|]. split; [repeat constructor|]. split; [reflexivity | discriminate]. Qed.
